@@ -35,7 +35,7 @@ ASSUMPTIONS = [
     "a float that truncates to a valid element id is not 'a reference that matches nothing' "
     "and is not generated",
 ]
-TECHNIQUE = "relational runtime monitor: equivalent transform spellings must give identical public outputs; bounded space enumerated"
+TECHNIQUE = "relational runtime monitor: equivalent transform spellings (one reference, and pairs of references in one transform) must give identical public outputs; bounded space enumerated"
 DESIGN_REF = "DESIGN.md 4 C19"
 EXHAUSTIVE = {"quick": True, "thorough": False}
 REQUIRED_REACH = ["spelling_equivalence", "stale_ignored", "reuse", "mixed_spellings",
